@@ -193,6 +193,12 @@ def generate(rng, tier, cls):
             # UTF-7), several lines long in its own terms, invalid at its end
             enc = rng.choice(['cp037', 'cp500', 'utf-7'])
             body = ('{\n' + '\n' * rng.randint(3, 30) + '"a": }\n').encode(enc)
+
+            if enc == 'utf-7':
+                # line feeds written in UTF-7's base64 form: text lines that
+                # are not lines of the byte stream
+                body = b'{' + b'+AAoACgAK-' * rng.randint(2, 12) + \
+                    b'"a": }\n'
             data = b'#diffx: encoding=utf-8, version=1.0\n' + \
                 b'#.meta: encoding=' + enc.encode() + \
                 b', format=json, length=%d\n' % len(body) + body
@@ -238,8 +244,13 @@ def check_parse_error(out, tag, info, data):
     col = info.get('column')
     msg = info.get('msg', '')
 
+    # "within the input": no more lines than the input has line feeds - of
+    # ASCII-compatible text (0x0A) or of EBCDIC text (0x25), the two forms a
+    # line feed takes in the byte stream for the stateless codecs (the
+    # reader itself counts the lines of a section by that section's encoded
+    # newline)
     if not isinstance(ln, int) or isinstance(ln, bool) or \
-       not (0 <= ln <= len(data)):
+       not (0 <= ln <= data.count(b'\n') + data.count(b'\x25') + 1):
         out.violate('C08.linenum-range', tag, {'exc': info,
                                               'len': len(data)})
         return
